@@ -348,6 +348,13 @@ func FuncType(r *Reg) reflect.Type {
 
 // Service returns what is passed to Add*: a function value or an instance.
 func (w *World) Service(r *Reg) any {
+	if r.HasCtorOf {
+		for i := range w.Cfg.Regs {
+			if w.Cfg.Regs[i].ID == r.CtorOf && !w.Cfg.Regs[i].HasCtorOf {
+				return w.Service(&w.Cfg.Regs[i])
+			}
+		}
+	}
 	w.mu.Lock()
 	if c, ok := w.Ctors[r.ID]; ok {
 		w.mu.Unlock()
@@ -475,6 +482,10 @@ func (w *World) invoke(r *Reg, ft reflect.Type, args []reflect.Value) []reflect.
 	case FormOut:
 		st := reflect.New(ft.Out(0)).Elem()
 		for i, o := range r.Outs {
+			if o.Nil {
+				inv.Outs = append(inv.Outs, nil) // the field stays nil
+				continue
+			}
 			e, obj := w.newEntry(r, i, o.implFor(inv), inv)
 			inv.Outs = append(inv.Outs, e)
 			st.Field(i + 1).Set(obj.Convert(st.Field(i + 1).Type()))
